@@ -14,7 +14,7 @@ class C07(Prop):
             "record/datagram it carries; non-trivial = at least one data packet was exported; distinct = spec digests")
     reach = ["ipv6", "record_spans_3_packets", "duplicate_segment", "timestamp_tie", "clock_step_back", "clock_step_fwd",
              "quic_datagram", "multi_conn", "coarse_clock", "quic_cross_direction_tie", "quic_client_address_change",
-             "quic_first_seen_packet_from_server"]
+             "quic_first_seen_packet_from_server", "container_with_other_blocks"]
 
     def plan(self, tier):
         p = super().plan(tier)
@@ -56,6 +56,13 @@ class C07(Prop):
             for c in spec["conns"]:
                 if c["proto"] == "quic":
                     c["unique_ts"] = "per_direction"
+        CT = R.fork("container")
+        if CT.chance(20):
+            # other blocks between the packets, among them descriptions of further (unused) interfaces with their own
+            # timestamp resolution and offset; finer resolutions of the capture interface itself
+            spec["container"] = CT.choice([{"blocks_seed": CT.bits(30)}, {"blocks_seed": CT.bits(30), "tsresol": ["dec", 9]},
+                                           {"blocks_seed": CT.bits(30), "be": True, "epb_opts": True},
+                                           {"tsresol": ["bin", 30]}])
         return spec
 
     def check(self, lane, spec):
@@ -67,6 +74,8 @@ class C07(Prop):
         out.sample = {"seed": spec.get("seed"), "conns": [describe_conn(c) for c in spec["conns"]][:3],
                       "tap": spec.get("tap")}
         self.reach_probes(spec, ex, out)
+        if spec.get("container"):
+            out.count("reach:container_with_other_blocks")
         if failure_class(res):
             out.count("run_failed")     # C01/C02/C03 report failures
             return out
